@@ -44,7 +44,7 @@ Section U.
 
   (* one observation of the implementation: output, _dict.items() in order *)
   Definition obs := (list Z * list Z)%type.
-  Record case := mkcase { typed : bool; enf : bool; bare : bool;
+  Record case := mkcase { typed : bool; enf : bool; bare : bool; hash : bool;
                           init : list kitem; ops : list (@op kitem K); seen : list obs }.
 
   Definition obs_eqb (a b : obs) : bool :=
@@ -58,21 +58,21 @@ Section U.
     end.
 
   (* model trace *)
-  Fixpoint trace (valid : kitem -> bool) (kk : K -> option K) (e : bool)
+  Fixpoint trace (valid : kitem -> bool) (kk : K -> option K) (h : kitem -> bool) (e : bool)
            (d : @dict kitem K) (os : list (@op kitem K)) : list obs :=
     match os with
     | [] => []
-    | o :: t => let '(r, d') := step key keqb kieqb valid as_key as_item kk e d o in
-                (enc_out r, enc_pairs d') :: trace valid kk e d' t
+    | o :: t => let '(r, d') := step key keqb kieqb valid as_key as_item kk h e d o in
+                (enc_out r, enc_pairs d') :: trace valid kk h e d' t
     end.
 
   (* specification trace *)
-  Fixpoint spec_trace (valid : kitem -> bool) (kk : K -> option K) (e : bool)
+  Fixpoint spec_trace (valid : kitem -> bool) (kk : K -> option K) (h : kitem -> bool) (e : bool)
            (m : @dict kitem K) (os : list (@op kitem K)) : list obs :=
     match os with
     | [] => []
-    | o :: t => let '(r, m') := spec_step key keqb kieqb valid kk e m o in
-                (enc_out r, enc_pairs m') :: spec_trace valid kk e m' t
+    | o :: t => let '(r, m') := spec_step key keqb kieqb valid kk h e m o in
+                (enc_out r, enc_pairs m') :: spec_trace valid kk h e m' t
     end.
 
   (* 0: model = implementation and specification = implementation
@@ -82,11 +82,12 @@ Section U.
   Definition check_case (c : case) : nat :=
     let valid := kvalid_of (typed c) in
     let kk := kok (bare c) in
+    let h := fun _ : kitem => hash c in
     match from_iterable key keqb kieqb valid (enf c) (init c),
           fresh key keqb kieqb valid (enf c) (init c) with
     | Ok d0, Ok m0 =>
-        if all_obs_eqb (spec_trace valid kk (enf c) m0 (ops c)) (seen c)
-        then if all_obs_eqb (trace valid kk (enf c) d0 (ops c)) (seen c) then 0%nat else 1%nat
+        if all_obs_eqb (spec_trace valid kk h (enf c) m0 (ops c)) (seen c)
+        then if all_obs_eqb (trace valid kk h (enf c) d0 (ops c)) (seen c) then 0%nat else 1%nat
         else 2%nat
     | _, _ => 3%nat
     end.
